@@ -695,6 +695,16 @@ class Run:
                 self.flag("C05-QUERY", f"circuit {i} ({M.show(Lm)}): (prev, next)_moment_operating_on(q{qi}, {e}) = {got}, "
                                        f"the operations on q{qi} are in moments {occ}", who=i)
                 return False
+            # a bounded window, also one that starts before the circuit does: [start, start + max_distance)
+            for st0 in (-2, -1, e):
+                for md in (1, 3):
+                    got2 = clone.next_moment_operating_on([self.Q[qi]], st0, max_distance=md)
+                    want2 = min([j for j in occ if st0 <= j < st0 + md], default=None)
+                    if got2 != want2:
+                        self.flag("C05-QUERY", f"circuit {i} ({M.show(Lm)}): next_moment_operating_on(q{qi}, {st0}, "
+                                               f"max_distance={md}) = {got2}, the operations on q{qi} are in moments {occ}",
+                                  who=i)
+                        return False
             if not pending("prev-moment-past-end"):
                 far = n + 1 + (s % 2)
                 got1 = clone.prev_moment_operating_on([self.Q[qi]], far)
